@@ -11,7 +11,8 @@ RULE = ("baseline exchanges (random config, reordering+duplicating real server) 
         "message each way; distinct = distinct scheduler decision traces.")
 ASSUMPTIONS = ["bounded progress: everything must arrive within 300 virtual seconds after the last cut",
                "cuts before a client's first successful open are excluded (documented as fatal)"]
-FLOORS = {"quick": {"drops": 300, "complete": 300, "sends_in_closing_window": 20}, "thorough": {"drops": 5000, "complete": 5000}}
+FLOORS = {"quick": {"drops": 300, "complete": 300, "sends_in_closing_window": 20, "lastwords_delivered": 15},
+          "thorough": {"drops": 5000, "complete": 5000, "lastwords_delivered": 400}}
 
 
 def cases(tier, seed, prep=None):
